@@ -9,9 +9,16 @@ use crate::proto;
 pub fn c09(rng: &mut Rng, thorough: bool, idx: u64) -> Spec {
     let auth_query = idx % 3 == 2;
     let shutdown = idx % 4 == 3;
+    // every fifth run: the pooler offers TLS (the repository's own test certificate) and most
+    // clients, honest or not, take it
+    let tls = idx % 5 == 4;
     let mut cfg = single_pool("transaction", 4, 0);
     cfg.set("connect_timeout", 2000);
     cfg.set("shutdown_timeout", 20000);
+    if tls {
+        cfg.set("tls_certificate", "\"/repo/.circleci/server.cert\"");
+        cfg.set("tls_private_key", "\"/repo/.circleci/server.key\"");
+    }
     // a second user; optionally a trust user
     cfg.pools[0].users.push(UserDef { key: "1".into(), ..UserDef::new("other", "otherpw", 2) });
     let trust_user = rng.chance(0.3);
@@ -213,13 +220,23 @@ pub fn c09(rng: &mut Rng, thorough: bool, idx: u64) -> Spec {
                 }
                 _ => {}
             }
+            // psql's default: ask for TLS first, continue in plain when refused
+            if rng.chance(0.4) {
+                c.ssl_probe = true;
+            }
             kinds.insert(id.to_string(), serde_json::json!(b));
             clients.push(c);
+        }
+    }
+    if tls {
+        for c in clients.iter_mut() {
+            c.tls = rng.chance(0.75);
         }
     }
     let net = if rng.chance(0.5) { net_calm() } else { NetSpec { latency_ms: (0, *rng.pick(&[0u64, 1, 2])), ..net_swarm(rng) } };
     let mut spec = Spec { config_toml: cfg.render(), hosts, net, clients, actions, end: EndSpec { deadline_ms: 900_000, calm_ms: 50 }, ..Default::default() };
     spec.params = params_from(&cfg);
+    spec.params.insert("tls".into(), serde_json::json!(tls));
     spec.params.insert("c09_kinds".into(), serde_json::Value::Object(kinds));
     spec.params.insert("auth_query".into(), serde_json::json!(auth_query));
     spec.params.insert("boot_lookup_down".into(), serde_json::json!(boot_lookup_down));
@@ -227,7 +244,7 @@ pub fn c09(rng: &mut Rng, thorough: bool, idx: u64) -> Spec {
     spec.params.insert("trust_user".into(), serde_json::json!(trust_user));
     spec.params.insert("sigint_ms".into(), serde_json::json!(sig_ms));
     spec.params.insert("lookup_host".into(), serde_json::json!(host0));
-    spec.family = format!("auth/{}{}", if auth_query { "auth_query" } else { "cleartext" }, if boot_lookup_down { "/lookup_down_at_boot" } else { "" }) + if shutdown { "/shutdown" } else { "" };
+    spec.family = format!("auth/{}{}", if auth_query { "auth_query" } else { "cleartext" }, if boot_lookup_down { "/lookup_down_at_boot" } else { "" }) + if shutdown { "/shutdown" } else { "" } + if tls { "/tls" } else { "" };
     spec.oracles = vec!["c09_auth".into(), "liveness".into()];
     spec
 }
@@ -416,6 +433,8 @@ pub const HUGE_PASSWORD: i32 = 0x7fff_e004;
 pub const HUGE_FRAME: i32 = 0x7fff_d004;
 pub const HUGE_ADMIN_FRAME: i32 = 0x7fff_c004;
 
+pub const C11_SHARED_TEXT: &str = "SELECT 'shared-c11', $1";
+
 /// One hostile post-authentication payload: (class name, bytes).
 fn hostile_payload(rng: &mut Rng, tag: &str, allow_huge: bool) -> (String, Vec<u8>) {
     let valid_q = proto::query(&format!("SELECT '{}'", tag)).bytes();
@@ -425,7 +444,7 @@ fn hostile_payload(rng: &mut Rng, tag: &str, allow_huge: bool) -> (String, Vec<u
         "b_param_len_negative", "b_param_len_beyond", "b_unknown_stmt", "d_bad_kind", "d_empty", "d_unknown", "c_bad_kind", "c_empty", "c_no_nul", "e_no_nul", "e_without_bind",
         "sync_alone", "flush_alone", "copydata_outside_copy", "copydone_outside_copy", "copyfail_outside_copy", "password_msg", "function_call", "terminate_then_more",
         "random_bytes", "half_frame_then_close", "parse_without_sync_then_close", "bind_name_invalid_utf8", "huge_len",
-        "q_error_echo_non_utf8", "q_error_echo_non_utf8", "p_trailing_query", "p_fewer_types_than_announced", "b_trailing_query", "d_trailing_query", "c_trailing_query", "mutated_batch", "mutated_batch", "mutated_batch",
+        "q_error_echo_non_utf8", "q_error_echo_non_utf8", "p_poison_shared_text", "p_poison_shared_text", "p_trailing_query", "p_fewer_types_than_announced", "b_trailing_query", "d_trailing_query", "c_trailing_query", "mutated_batch", "mutated_batch", "mutated_batch",
     ];
     let mut k = *rng.pick(&kinds);
     if k == "huge_len" && !allow_huge {
@@ -586,6 +605,15 @@ fn hostile_payload(rng: &mut Rng, tag: &str, allow_huge: bool) -> (String, Vec<u
             v.extend(proto::sync().bytes());
             v
         }
+        "p_poison_shared_text" => {
+            // a statement everybody uses, with an impossible parameter count
+            let mut b = cs(&format!("px{}", rng.range(0, 9)));
+            b.extend(cs(C11_SHARED_TEXT));
+            b.extend_from_slice(&(*rng.pick(&[-1i16, -2, i16::MIN])).to_be_bytes());
+            let mut v = well_framed(b'P', &b);
+            v.extend(proto::sync().bytes());
+            v
+        }
         "p_fewer_types_than_announced" => {
             let mut b = cs("h2");
             b.extend(cs("SELECT $1, $2"));
@@ -713,6 +741,31 @@ pub fn c11(rng: &mut Rng, thorough: bool, idx: u64) -> Spec {
         let mut p = Prog::new(id);
         let n = rng.range(4, if thorough { 14 } else { 9 });
         super::control::worker_prog(&mut p, rng, n, (5, 120), !cache_on);
+        if cache_on {
+            // statements whose text is shared with everybody (also with an attacker): the pool-wide
+            // statement cache is keyed by it; attribution is by the bound parameter
+            for _ in 0..rng.range(1, 3) {
+                p.new_txn();
+                let t = p.tag();
+                let at = rng.below(p.steps.len() as u64 + 1) as usize;
+                let step = Step::Send {
+                    msgs: vec![
+                        FrontMsg::P { name: String::new(), sql: C11_SHARED_TEXT.into(), types: vec![] },
+                        FrontMsg::B { portal: String::new(), stmt: String::new(), fmt: vec![], params: vec![Some(t)], rfmt: vec![], binary_hex: false },
+                        FrontMsg::E { portal: String::new(), max: 0 },
+                        FrontMsg::S,
+                    ],
+                    rfq: None,
+                    cut: None,
+                    abort: false,
+                    txn: p.t,
+                };
+                // only between whole transactions: after a step that is not inside BEGIN..COMMIT
+                let _ = at;
+                p.steps.push(step);
+                p.think(rng.range(5, 60));
+            }
+        }
         p.steps.push(Step::Terminate);
         let mut c = client(id, "app", "db", "apppw", rng.range(0, 40), p.steps);
         c.role = "canary".into();
